@@ -64,6 +64,8 @@ SET_AUDIT_PREFIX = {
     ("subset/__init__.py", "subset_glyphs", "dictcomp over s.glyphs: {glyph: table."): "AAT lookup dicts keyed by glyph name; AATLookup.write sorts by glyph id",
 }
 
+SET_AUDIT[("voltLib/voltToFea.py", "VoltToFea._gposLookup", "for glyphname in marks")] = "fills self._markclasses, emitted through sorted(self._markclasses.items())"
+
 RECEIVERS = {
     # module prefix -> {receiver name: (module, class)}
     "subset/": {"s": ("subset/__init__.py", "Subsetter"), "subsetter": ("subset/__init__.py", "Subsetter")},
